@@ -194,7 +194,8 @@ def dual_rail(bits):
 
 def heralded_cost(circ, nq, n_out):
     ph = nq + sum(circ.heralds["input"].values())
-    return (2 ** nq) * n_out * (2 ** ph) * ph, ph
+    # ~10 ns per unit: Ryser permanent of size ph plus ~35 us python overhead per (input, output) pair
+    return (2 ** nq) * n_out * ((2 ** ph) * ph + 3500), ph
 
 
 def check_unitary(circ, ps, qc, nq, budget):
@@ -283,11 +284,34 @@ def f2_shape(rng):
     return dict(kind="conv", nq=nq, ps=True, gates=gates)
 
 
+def late_three(rng):
+    """Three-qubit gates near the end of the program (where the analyser lets them through)."""
+    nq = rng.choice([3, 3, 4])
+    gates = rand_circuit(rng, nq, rng.randint(0, 5), True, w1=0.6, allow3=False)["gates"]
+    lo = rng.randint(0, nq - 3)
+    tri = [lo, lo + 1, lo + 2]
+    gates.append(G(rng.choice(THREE), rng.sample(tri, 3)))
+    free = [q for q in range(nq)]
+    for _ in range(rng.randint(0, 3)):
+        r = rng.random()
+        if r < 0.6:
+            gates.append(rand_gate(rng, nq, SINGLE + ROT))
+        elif r < 0.8 and nq == 4:
+            # two-qubit gate sharing exactly one qubit with the three-qubit gate
+            other = [q for q in free if q not in tri][0]
+            pair = [rng.choice(tri), other]
+            rng.shuffle(pair)
+            gates.append(G(rng.choice(TWO), pair))
+        else:
+            gates.append(G(rng.choice(THREE), rng.sample(tri, 3)))
+    return dict(kind="conv", nq=nq, ps=True, gates=gates)
+
+
 def malformed(rng):
     nq = rng.randint(1, 5)
     ps = rng.random() < 0.5
     base = rand_circuit(rng, nq, rng.randint(0, 5), ps, allow3=ps)["gates"]
-    kind = rng.randrange(9)
+    kind = rng.choice([0, 0, 1, 2, 3, 4, 4, 5, 5, 6, 6, 6, 6, 7, 8, 8])
     bad = None
     if kind == 0:
         cands = [n for n, (a, _) in UNSUPPORTED.items() if a <= nq]
@@ -402,6 +426,8 @@ class C12:
             cases.append(c)
         for _ in range(200 if thorough else 8):
             cases.append(f2_shape(rng))
+        for _ in range(400 if thorough else 24):
+            cases.append(late_three(rng))
         # structural stream: bigger programs
         for k in range(5000 if thorough else 220):
             nq = rng.randint(1, 5 if thorough else 4)
@@ -427,7 +453,7 @@ class C12:
             flags, qs = post_selection_analyzer(qc)
             return {"flags": [bool(f) for f in flags], "qubits": sorted(int(q) for q in qs)}
         try:
-            circ, ps = with_timeout(lambda: qiskit_converter(qc, c["ps"]), 30)
+            circ, ps = with_timeout(lambda: qiskit_converter(qc, c["ps"]), 5)
         except Hang:
             return {"err": "Hang"}
         except Exception as e:  # noqa: BLE001
@@ -510,7 +536,7 @@ class C12:
             return None       # custom instruction: no qiskit meaning to compare with
         qc = build_qc(c)
         circ, ps = qiskit_converter(qc, c["ps"])
-        budget = 6e9 if self.tier == "thorough" else 6e8
+        budget = 2e8 if self.tier == "thorough" else 1e8
         msg, ran = check_unitary(circ, ps, qc, c["nq"], budget)
         if ran:
             self.oracle_runs += 1
